@@ -310,8 +310,10 @@ fn check_op(c: &TCase, op: &TOp, tr: &[(bool, u64, u8, u64)], res: &Res, pre: &P
                     Some((true, 0x44, 4, 1)) => {}
                     other => return Err(format!("last access must write QueueReady = 1, got {:x?}", other)),
                 }
-                if tr.iter().filter(|x| x.1 == 0x44).count() != 1 {
-                    return Err("QueueReady touched more than once".into());
+                // QueueReady may be read (is the queue live?) and a live queue may be stopped first
+                // (write 0); 1 is written exactly once, last
+                if tr.iter().filter(|x| x.0 && x.1 == 0x44 && x.3 != 0).count() != 1 {
+                    return Err("QueueReady = 1 written more than once".into());
                 }
                 if regs.num != s || regs.desc != d || regs.driver != a || regs.device != u || regs.ready != 1 {
                     return Err(format!(
@@ -343,7 +345,13 @@ fn check_op(c: &TCase, op: &TOp, tr: &[(bool, u64, u8, u64)], res: &Res, pre: &P
                     return Err("QueueReady not cleared by queue_unset".into());
                 }
                 let w0 = tr.iter().position(|x| x.0 && x.1 == 0x44 && x.3 == 0);
-                let Some(w0) = w0 else { return Err("QueueReady = 0 never written".into()) };
+                let Some(w0) = w0 else {
+                    // a queue that was not ready needs no write, if the transport looked
+                    if pre.regs.ready == 0 && tr.iter().any(|x| !x.0 && x.1 == 0x44 && x.3 == 0) && !tr.iter().any(|x| x.0 && x.1 != 0x30) {
+                        return Ok(());
+                    }
+                    return Err("QueueReady = 0 never written".into());
+                };
                 let r0 = tr[w0..].iter().position(|x| !x.0 && x.1 == 0x44 && x.3 == 0);
                 let Some(r0) = r0 else {
                     return Err("queue_unset returned without reading QueueReady back as 0 (the device delays the transition)".into());
